@@ -342,7 +342,9 @@ def gen_ims(ch, base_sec):
 
 
 # a unit other than "bytes": RFC 9110 14.2 "MUST ignore" / tests: "unknown unit; ignore"
-OTHER_UNITS = ['items=0-1', 'words=1-3', 'none=0-0', 'bytes2=0-1', 'octets=-2', 'lines=0-']
+OTHER_UNITS = ['items=0-1', 'words=1-3', 'none=0-0', 'bytes2=0-1', 'octets=-2', 'lines=0-',
+               # the range-set of an unknown unit has a grammar of its own: nothing to validate
+               'items=5-2', 'seconds=1.5-3', 'words=1-3,5-7', 'pages=a-b', 'rows=--', 'chapters=iv']
 # neither: may be rejected, ignored or honoured consistently (R3)
 WEAK_RANGES = ['Bytes=0-1', 'BYTES=-2', '=0-1', '0-1', 'bytes', 'bytes=', 'bytes=-', 'bytes=a-b',
                'bytes=1-0', 'bytes=0-0,2-3', 'bytes=0-0,-1', 'bytes=-0', 'bytes=1--3', 'bytes=--1',
